@@ -29,6 +29,21 @@ CLAIMED = {
 	"C11": ("runtime monitor: executed 48-cell decision table with duplicate-placement variants, join/edit/join histories",
 		"Held on every execution explored: every cell of kind x expect x left-unique x right-unique realised by 7 duplicate placements x 2 key kinds, empty sides, invalid expect values, sampled tables and histories in which a key edit creates or removes a duplicate between two calls.",
 		"Uniqueness computed by the model on whole key tuples (None equals None).", "DESIGN.md §4 C11"),
+	"C12": ("runtime monitor: list-search group-by model + call-recording apply spies, exhaustive small key space, PYTHONHASHSEED replicas",
+		"Held on every execution explored: all single key columns over {None,'a','b'} up to length 5, sampled 1-3 keys (by name / column / external vector), every subset of built-ins with repeated columns, apply spies (incl. input-draining callbacks), vector-vs-single-group agreement, three (thorough four) hash seeds compared case by case.",
+		"Grouping by == without hashing is the oracle; outputs matched as multiset of value lists plus name/function association.", "DESIGN.md §4 C12"),
+	"C13": ("runtime monitor: window vs list-search model and vs the real aggregate joined back on the key (two independent references)",
+		"Held on every execution explored: the C12 key space and sampled specs through window(), plus same-named aggregated vectors, all-singleton groups and falsy values; every row compared with the model and with aggregate().",
+		"Same as C12; window/aggregate paired by position when their name lists agree.", "DESIGN.md §4 C13"),
+	"C14": ("runtime monitor: sortedness/stability checker over id-tagged rows (not a second sort), exhaustive small key space, idempotence probe",
+		"Held on every execution explored: all key columns over {None,1,2} up to length 5 x reverse x na_last for tables (reverse as bool/list/tuple, key by name/column/external) and vectors, sampled 1-3 keys with per-key directions, ties, pre-ordered keys; each result also re-sorted.",
+		"The comparator model (None placement independent of direction, ties by ==) is the oracle.", "DESIGN.md §4 C14"),
+	"C19": ("runtime monitor: generated cell-text grids serialised with csv.writer, cell rule re-applied to the same texts as oracle",
+		"Held on every execution explored: every dictionary cell text x 4 delimiters x path/file-object, header-only and empty inputs, sampled grids with record-length patterns, repeated/odd headers, quoted cells with embedded delimiters, quotes, \\n, \\r\\n and \\r.",
+		"Files are well-formed CSV as written by csv.writer; longer-than-header records and blank lines are not generated.", "DESIGN.md §4 C19"),
+	"C20": ("runtime monitor: repr output parser (footer, dtype tokens, body rows, header) + totality/purity observer applied to results of other workloads",
+		"Held on every execution explored: the length x limit x width grid for vectors and tables (set_repr_rows and per-table overrides, 1-12 columns), hostile values of every dtype, 10^4-element vectors, 0-25 columns, and every result of the arithmetic / None / join / aggregate / sort / CSV workloads observed for totality and purity.",
+		"Body content compared for simple cells only; odd limits judged against the effective limit.", "DESIGN.md §4 C20"),
 }
 
 PENDING_REASON = "check not yet registered in this commit (under construction; runtime monitoring does apply - see DESIGN.md §4)"
